@@ -129,10 +129,14 @@ type sys struct {
 	proxy *runh.DBProxy
 	w     *runh.World
 	// reference model: two integers and a map (+ what was last seen in the store)
-	started int         // highest slot started in this incarnation
-	learned int         // highest height learned as decided (volatile knowledge, reloaded from the store on restart)
-	best    map[int]int // height -> signers of the historical record last seen stored for it
-	hi      *stored     // last observed highest-instance record
+	started int // highest slot started in this incarnation
+	learned int // highest height learned as decided (volatile knowledge, reloaded from the store on restart)
+	// writeFailed: the database has refused a write since the last (re)start. What is known in
+	// memory then need not be in the store any more (nothing retries the write), so the durability
+	// clause (E) is suspended until the next restart; every other clause stays in force.
+	writeFailed bool
+	best        map[int]int // height -> signers of the historical record last seen stored for it
+	hi          *stored     // last observed highest-instance record
 	// caches, valid while the proxy has seen no further write
 	readAt, dumpAt int
 	readHi         *stored
@@ -215,7 +219,7 @@ func (s *sys) Hash() [32]byte {
 		s.dumpAt = s.proxy.TotalWrites + 1
 	}
 	h.Write(s.dumpDig[:])
-	fmt.Fprintf(h, "|model %d %d %v|", s.started, s.learned, s.hi)
+	fmt.Fprintf(h, "|model %d %d %v %v|", s.started, s.learned, s.hi, s.writeFailed)
 	var hs []int
 	for k := range s.best {
 		hs = append(hs, k)
@@ -258,12 +262,9 @@ func (s *sys) Apply(st runh.Step) (string, []runh.Viol, int) {
 	s.proxy.ResetCounters()
 	crashed := false
 	if st.V > 0 {
-		s.proxy.CrashAt = (st.V + 1) / 2
-		s.proxy.CrashMode = "before"
-		if st.V%2 == 0 {
-			s.proxy.CrashMode = "after"
-		}
+		s.proxy.CrashAt, s.proxy.CrashMode = faultOf(st.V)
 	}
+	writeError := st.V > 0 && s.proxy.CrashMode == "error" // the write fails, the process goes on
 
 	var startErr error
 	decidedNew := 0 // height newly learned as decided by this (completed) event
@@ -296,7 +297,10 @@ func (s *sys) Apply(st runh.Step) (string, []runh.Viol, int) {
 	}()
 	writes := s.proxy.Writes
 	s.proxy.CrashAt = 0
-	if st.V > 0 && !crashed {
+	if writeError && !s.proxy.Injected {
+		ev.Fatal("%s: write-error variant %d of %s did not reach its DB call (non-deterministic write sequence)", s.c.name, st.V, e.name)
+	}
+	if st.V > 0 && !crashed && !writeError {
 		ev.Fatal("%s: crash variant %d of %s did not reach its DB call (non-deterministic write sequence)", s.c.name, st.V, e.name)
 	}
 
@@ -366,8 +370,15 @@ func (s *sys) Apply(st runh.Step) (string, []runh.Viol, int) {
 		}
 		if decidedNew > 0 {
 			s.learned = maxi(s.learned, decidedNew)
-			// (E) the highest decided instance must be durable when the step returns
+			// (E) the highest decided instance must be durable when the step returns (unless the
+			// database refused the write: then it is known in memory only, and still binds the
+			// duty-start clause until the next restart)
+			if writeError {
+				s.writeFailed = true
+			}
 			switch {
+			case s.writeFailed:
+				out += "+after-write-error"
 			case hi != nil && hi.h >= decidedNew:
 				if decidedNew >= heightBefore {
 					out += "+persisted"
@@ -392,6 +403,7 @@ func (s *sys) Apply(st runh.Step) (string, []runh.Viol, int) {
 		}
 		s.started = 0
 		s.learned = want
+		s.writeFailed = false
 		if crashed {
 			out = fmt.Sprintf("crash-%s-write+restart", s.proxy.CrashMode)
 		} else {
@@ -409,9 +421,14 @@ func (s *sys) Apply(st runh.Step) (string, []runh.Viol, int) {
 	}
 	variants := 0
 	if st.V == 0 && e.kind != kRestart {
-		variants = 2 * writes
+		variants = 3 * writes
 	}
 	return out, viols, variants
+}
+
+// faultOf decodes a step variant: the k-th DB write call of the event, and what happens there.
+func faultOf(v int) (int, string) {
+	return (v + 2) / 3, [...]string{"before", "after", "error"}[(v-1)%3]
 }
 
 // certClass names the kind of step that caused a replacement (part of the violation signature).
@@ -435,11 +452,12 @@ func (c *cfgT) config() *runh.Config {
 		EventName: func(s runh.Step) string {
 			n := c.events[c.evs[s.E]].name
 			if s.V > 0 {
-				mode := "before"
-				if s.V%2 == 0 {
-					mode = "after"
+				k, mode := faultOf(s.V)
+				if mode == "error" {
+					n += fmt.Sprintf(" !db-write#%d fails with an error", k)
+				} else {
+					n += fmt.Sprintf(" !crash-%s-db-write#%d then restart", mode, k)
 				}
-				n += fmt.Sprintf(" !crash-%s-db-write#%d then restart", mode, (s.V+1)/2)
 			}
 			return n
 		},
@@ -511,7 +529,7 @@ func main() {
 		r.Add("transitions", res.Transitions)
 		r.Add("replayed_worlds", res.Replays)
 		exhaustive = exhaustive && res.Complete
-		bounds = append(bounds, fmt.Sprintf("%s: events=%d (+2 crash variants per DB write of every event) rounds=%v depth<=%d states=%d transitions=%d new-states-per-depth=%v complete=%v", c.name, len(c.evs), rounds, c.depth, res.States, res.Transitions, res.Levels, res.Complete))
+		bounds = append(bounds, fmt.Sprintf("%s: events=%d (+3 fault variants per DB write of every event: crash before, crash after, write error) rounds=%v depth<=%d states=%d transitions=%d new-states-per-depth=%v complete=%v", c.name, len(c.evs), rounds, c.depth, res.States, res.Transitions, res.Levels, res.Complete))
 		for k, v := range res.Outcomes {
 			hist[c.name+" "+k] += v
 		}
